@@ -10,7 +10,16 @@ REAL_KV = ['kvs/inmem (rewritten copy)', 'kvs/redis client code (rewritten copy)
 SIM_KV = SIM_COMMON + ['Redis server: in-process miniredis (command semantics are its own), TCP listener closed', 'network: net.Pipe pairs with pump goroutines that park before every command delivery and every reply (command-level interleaving between connections)', 'Redis TTL clock: slaved to the simulated clock before every delivered command']
 ASSUME_KV = ['scheduler fairness bound F', 'interleavings at yield granularity: every lock/select/channel point in inmem; every command and reply delivery for Redis', 'miniredis stands in for Redis (as in the repository\'s own tests)']
 
+REAL_LRU = ['container/lru (rewritten copy: cooperative mutex, in-flight channel wait through zsimrt.Recv)', 'container/iterable Map (unmodified apart from a test-only node counter)']
+SIM_LRU = SIM_COMMON + ['create function and delete callback (harness functions: park at entry/exit, sleep simulated time, fail by plan, record arguments)']
+
 PROPS = {
+    'C08': dict(world='lru', quick=dict(budget_s=15), thorough=dict(budget_s=420), real=REAL_LRU, simulated=SIM_LRU,
+                assumptions=['one task: the scheduler has nothing to choose; what is sampled is call sequences, capacities 1-4 and 64, create-function failures and clock jumps (ExpirableCache)', 'expiry instants and jump sizes never coincide exactly']),
+    'C09': dict(world='lru', quick=dict(budget_s=22), thorough=dict(budget_s=600), real=REAL_LRU, simulated=SIM_LRU,
+                assumptions=['scheduler fairness bound F', 'interleavings at yield granularity: cache lock acquisitions, the in-flight channel, create-function entry/exit', 'evictions are attributed to the operation on whose goroutine the delete callback ran']),
+    'C11': dict(world='lru', quick=dict(budget_s=22), thorough=dict(budget_s=600), real=REAL_LRU, simulated=SIM_LRU,
+                assumptions=['scoped to histories driven through the LRU cache (C08/C09 worlds plus a long-history mode); maps with user-held iterators are not covered', 'cost growth is decided through the list-node count, not by wall-clock measurement']),
     'C02': dict(world='kv', quick=dict(budget_s=22), thorough=dict(budget_s=600), real=REAL_KV, simulated=SIM_KV,
                 assumptions=ASSUME_KV + ['histories are checked per key by porcupine against a sequential KV model (multi-key calls contribute one sub-operation per key); a timed-out check is counted inconclusive, never a violation']),
     'C03': dict(world='kv', quick=dict(budget_s=22), thorough=dict(budget_s=600), real=REAL_KV, simulated=SIM_KV,
